@@ -190,6 +190,33 @@ func suiteC09(r *Run) {
 		}
 	}
 
+	// ---------------- a forwarded `grpc-timeout` metadata entry (e.g. a gateway passing incoming metadata on)
+	// must not displace the caller's own deadline: what the server parses is the encoding of THIS deadline
+	for i, stale := range []string{"30S", "1H", "5m", "1n", "99999999H", "bogus"} {
+		d := []time.Duration{500 * time.Millisecond, 2 * time.Second, 90 * time.Second}[i%3]
+		t0 := time.Now()
+		ctx, cancel := context.WithDeadline(context.Background(), t0.Add(d))
+		ctx = metadata.NewOutgoingContext(ctx, metadata.Pairs("grpc-timeout", stale, "x-other", "v"))
+		h := httpgrpc.VerifHeadersFromContext(ctx)
+		sctx, scancel, err := httpgrpc.VerifContextFromHeaders(context.Background(), h)
+		t1 := time.Now()
+		c := map[string]interface{}{"op": "forwarded-grpc-timeout-metadata", "metadata_value": stale, "caller_remaining": d.String(), "header_values": h.Values("GRPC-Timeout")}
+		r.Eval(sprintf("enc-forwarded %s %v", stale, d), true)
+		r.Count("client:encode-forwarded-metadata")
+		if err != nil {
+			r.Violate("http/timeout/forwarded-metadata-error", "the deadline is propagated", err.Error(), c, "")
+		} else {
+			dl, ok := sctx.Deadline()
+			// the handler's deadline: never later than the caller's, never earlier by more than the granularity (+ the time this took)
+			if !ok || dl.After(t0.Add(d).Add(time.Millisecond)) || dl.Before(t0.Add(d).Add(-2*time.Millisecond-t1.Sub(t0))) {
+				r.Violate("http/timeout/stale-metadata-wins", "the handler's deadline is never later than the caller's and never earlier by more than the encoding granularity",
+					sprintf("caller deadline in %v with outgoing metadata grpc-timeout=%q: GRPC-Timeout header values %q; the server derives a deadline %v from now (has deadline: %v)", d, stale, h.Values("GRPC-Timeout"), dl.Sub(t1), ok), c, strings.Join(h.Values("GRPC-Timeout"), ","))
+			}
+			scancel()
+		}
+		cancel()
+	}
+
 	// ---------------- end to end
 	type obs struct {
 		has bool
